@@ -15,8 +15,10 @@ import dsched
 from common import cbool, clist
 
 THEORY = "C11"
-VARIANTS = ["sleep", "getsig", "getsig_timed", "loop"]
-COQ_VARIANT = {"sleep": "VSleep", "getsig": "VGetSig", "getsig_timed": "VGetSigTimed", "loop": "VLoop",
+VARIANTS = ["sleep", "getsig", "getsig_timed", "loop", "getsig_poll"]
+# getsig_poll: the non-blocking form get_next_signal(timeout=0) (a task polling its receiver): Condition.wait(0) never parks,
+# it releases and re-takes the queue lock (model program prog_getsig_poll)
+COQ_VARIANT = {"getsig_poll": "VGetSigPoll", "sleep": "VSleep", "getsig": "VGetSig", "getsig_timed": "VGetSigTimed", "loop": "VLoop",
                "getsig_reader": "VGetSigReader", "getsig_timed_reader": "VGetSigTimedReader"}
 
 
@@ -55,6 +57,7 @@ def scenario(s, variant, env, stopper_delay, n_signals):
     class SleepTask(T.QMI_Task):
         def run(self):
             obs["run_entered"] = True
+            obs["seq_begin"] = len(s.events)
             try:
                 self.sleep(5.0)
                 obs["outcome"] = "tmo"
@@ -69,6 +72,7 @@ def scenario(s, variant, env, stopper_delay, n_signals):
 
         def run(self):
             obs["run_entered"] = True
+            obs["seq_begin"] = len(s.events)
             try:
                 recv.get_next_signal(timeout=self.TMO)
                 obs["outcome"] = "sig"
@@ -83,6 +87,9 @@ def scenario(s, variant, env, stopper_delay, n_signals):
     class GetSigTimedTask(GetSigTask):
         TMO = 5.0
 
+    class GetSigPollTask(GetSigTask):
+        TMO = 0.0
+
     class LoopTask(T.QMI_LoopTask):
         def loop_prepare(self):
             obs["run_entered"] = True
@@ -92,7 +99,7 @@ def scenario(s, variant, env, stopper_delay, n_signals):
             obs["t_release"] = s.clock
 
     reader = variant.endswith("_reader")
-    cls = {"sleep": SleepTask, "getsig": GetSigTask, "getsig_timed": GetSigTimedTask, "loop": LoopTask,
+    cls = {"getsig_poll": GetSigPollTask, "sleep": SleepTask, "getsig": GetSigTask, "getsig_timed": GetSigTimedTask, "loop": LoopTask,
            "getsig_reader": GetSigTask, "getsig_timed_reader": GetSigTimedTask}[variant]
     kwargs = {"loop_period": 2.0} if variant == "loop" else {}
     th = T._TaskThread(runner, "t", cls, (), kwargs)
@@ -145,6 +152,7 @@ def scenario(s, variant, env, stopper_delay, n_signals):
         recv._receive_signal(P.QMI_SignalMessage(Addr("c", "p"), Addr("c", "$pubsub"), "sig", (99,)))
         rt.join()
     obs["t_stop"] = t_stop
+    obs["seq_flag_set"] = next((i for i, e in enumerate(s.events) if len(e) > 2 and e[1] == "ev.set" and names.get(e[2]) == "flag"), None)
     obs["joined"] = True
     obs["final_state"] = th.get_state()[0].name
     obs["wc_after"] = th._wait_cond is not None
@@ -153,13 +161,15 @@ def scenario(s, variant, env, stopper_delay, n_signals):
     return obs
 
 
-def to_model_trace(obs):
+def to_model_trace(obs, variant=None):
     """Translate the recorded event log into model labels [(tid, obs-or-None)]."""
     names = {int(k): v for k, v in obs["names"].items()}
     role = {v: k for k, v in obs["tids"].items()}
     out = []
     parked = {}       # role -> 'cv' | 'ev'
     skip_acq = {}     # role -> True: the re-acquire inside Condition.wait
+    timed_out = {}    # role -> True: the scheduler logged the expiry of the current timed wait
+    park_at = {}      # role -> index in `out` just after the OPark of the current wait
     for e in obs["trace"]:
         tid, kind = e[0], e[1]
         r = role.get(tid)
@@ -168,6 +178,7 @@ def to_model_trace(obs):
         if kind == "timeout":
             if parked.get(r):
                 out.append((r, None))
+                timed_out[r] = True
             continue
         name = names.get(e[2])
         if name is None:
@@ -180,11 +191,22 @@ def to_model_trace(obs):
                 out.append((r, "OAcq 0"))
             elif name == "wc":
                 out.append((r, "OAcq 1"))
+        elif kind == "cond.wait" and name == "cv" and variant == "getsig_poll" and r == "TW":
+            pass            # wait(0): no parking; the re-acquire that follows is an ordinary acquire of the queue lock
+        elif kind == "cond.resume" and name == "cv" and variant == "getsig_poll" and r == "TW":
+            if e[3]:
+                out.append((r, "OResume true"))     # cannot happen for a wait that never parks: the model will reject it
         elif kind == "cond.wait" and name == "cv":
             out.append((r, "OPark"))
             parked[r] = "cv"
+            timed_out[r] = False
+            park_at[r] = len(out)
             skip_acq[r] = True
         elif kind == "cond.resume" and name == "cv":
+            if not e[3] and not timed_out.get(r):
+                # a wait with timeout 0 expires at once, at the moment of parking (the scheduler logs no separate expiry;
+                # a notify that comes later finds no waiter)
+                out.insert(park_at.get(r, len(out)), (r, None))
             out.append((r, "OResume %s" % cbool(e[3])))
             parked[r] = None
         elif kind == "ev.set" and name == "flag":
@@ -232,7 +254,11 @@ def oracle(variant, env, delay, res):
         if o["outcome"] != "sig":
             return "late-release", "task released %.3f s (virtual) after stop() returned: it waited for its timeout" % (
                 o["t_release"] - o["t_stop_returned"])
-    if o["run_entered"] and variant != "loop" and o["outcome"] == "tmo" and o["t_release"] >= o["t_stop_returned"] \
+    if o["run_entered"] and variant != "loop" and o.get("seq_begin") is not None and o.get("seq_flag_set") is not None \
+            and o["seq_flag_set"] < o["seq_begin"] and o["outcome"] not in ("exc", "sig"):
+        return "wait-after-stop", ("the task started to wait after the stop flag had been set but was not released with the "
+                                   "task-stop exception (outcome %r)" % (o["outcome"],))
+    if o["run_entered"] and variant not in ("loop", "getsig_poll") and o["outcome"] == "tmo" and o["t_release"] >= o["t_stop_returned"] \
             and o["t_stop"] < 5.0 - 1e-9:
         return "timeout-after-stop", "wait ended by timeout although stop() was requested before the deadline"
     if o.get("wc_after"):
@@ -287,7 +313,7 @@ def run(ck):
                 continue
             o = res["obs"]
             ck.count("outcome:%s" % (o["outcome"] if v != "loop" else ("fin" if o["fin"] else "nofin")))
-            tr = to_model_trace(o)
+            tr = to_model_trace(o, v)
             terms.append(coq_case(v, env, tr, o))
             metas.append((v, env, delay, nsig, res.get("choices"), tr, o.get("outcome")))
     # line-granularity interleavings inside the protocol functions (random schedules; same oracle and same
@@ -308,7 +334,7 @@ def run(ck):
                        "schedule": res.get("choices"), "status": res["status"]})
             continue
         o = res["obs"]
-        tr = to_model_trace(o)
+        tr = to_model_trace(o, v)
         terms.append(coq_case(v, env, tr, o))
         metas.append((v, env, delay, nsig, res.get("choices"), tr, o.get("outcome")))
     for m in metas[:2] + metas[-1:]:
